@@ -330,3 +330,51 @@ def clip_guarded(b, bb, coord, axis_dims, img):
                 dims = [x for x in walk(f['end']) if x[0] == 'call' and x[1] == 'image::ImageBuffer::' + axis_dims[0] and is_param(x[2][0], img)]
                 hi = hi or bool(dims)
     return lo and hi
+
+
+def ancestor_walk(ctx, rule='K4'):
+    """Layer::is_visible must examine the whole ancestor chain: since nesting depth is unbounded this needs recursion or a loop
+    (or an iterator adaptor) whose layer index is carried through the parents table - a necessary condition, independent of shape."""
+    import callgraph as CG
+    fx = ctx.fx
+    b = ctx.anchor('asefile::layer::Layer::is_visible')
+    if b is None:
+        return
+    g = CG.get(fx)
+    cone = g.cone([b.path])
+    recursive = any(b.path in scc for scc in g.sccs(cone))
+    loops = False
+    adaptors = False
+    for p in cone:
+        cb = fx.by_path[p]
+        if not cb.name.startswith('asefile::layer::'):
+            continue
+        for c in q.calls(cb):
+            at = q.arg_terms(c)
+            touches_parents = any(x[0] == 'field' and x[2] == 'parents' for a in at for x in walk(a)) or q.callee_name(c).endswith('Layer::parent')
+            if touches_parents and cb.cfg.loop_of(c.bb) is not None:
+                # the index must be loop-carried (depends on a previous iteration)
+                carried = any(x[0] == 'phi' or (x[0] == 'any') for a in at for x in walk(a))
+                loops = loops or carried
+            if c.callee.split('::')[-1] in ('successors', 'from_fn', 'try_fold', 'fold', 'all', 'any') and any(a[0] == 'closure' for a in at):
+                for a in at:
+                    if a[0] == 'closure' and a[1] in fx.by_path:
+                        if any(any(x[0] == 'field' and x[2] == 'parents' for y in q.arg_terms(cc) for x in walk(y)) or q.callee_name(cc).endswith('Layer::parent')
+                               for cc in q.calls(fx.by_path[a[1]])):
+                            adaptors = True
+    # and the VISIBLE flag is what is tested
+    t = expand(res(b).ret(), fx, 2)
+    flag = False
+    for p in cone:
+        cb = fx.by_path[p]
+        for sw in q.switches_on(cb, lambda d: True):
+            d = expand(q.switch_cond(cb, sw), fx, 3)
+            cs = [q.const_val(x) for x in walk(d) if x[0] == 'const']
+            if 1 in cs and any(x[0] == 'field' and x[2] == 'flags' for x in walk(d)):
+                flag = True
+    cs = [q.const_val(x) for x in walk(expand(t, fx, 3)) if x[0] == 'const']
+    flag = flag or (1 in cs and any(x[0] == 'field' and x[2] == 'flags' for x in walk(expand(t, fx, 3))))
+    ok = (recursive or loops or adaptors) and flag
+    ctx.inst(rule, 'Layer::is_visible#ancestors', ok, 'is_visible tests the VISIBLE flag (%s) and walks the ancestor chain by %s' % (
+        flag, 'recursion' if recursive else 'a loop carried through the parents table' if loops else 'an iterator over parents' if adaptors else
+        'NOTHING UNBOUNDED: only a fixed number of ancestors is examined'), b.span, key=b.name + '|%s|ancestors' % rule)
